@@ -56,6 +56,8 @@ class Opts:
     array_params: bool = False
     min_ops: int = 1
     always_opid: bool = False
+    self_ref: bool = True           # self reference through an array (imports fine, but cannot be decoded: F42)
+    ndjson: bool = False            # application/x-ndjson responses (parsed as SSE by the generated code: F43)
     enum_params: bool = True
     typed_headers: bool = False     # header parameters of non-string type (F39)
     name_clash: bool = False        # property names that class-case to a schema name / parent prefix (F36, F37)
@@ -118,7 +120,7 @@ def gen_property(r: random.Random, o: Opts, names: list[str], me: str, earlier: 
             s["required"] = r.sample(sorted(props), r.randint(0, len(props)))
     elif k < 0.86 and o.maps:
         s = {"type": "object", "additionalProperties": _prim(r, o, allow_enum=False) if r.random() < 0.7 or not targets else _ref(r.choice(targets))}
-    elif k < 0.90 and (depth == 0 or o.cycles):
+    elif k < 0.90 and o.self_ref and (depth == 0 or o.cycles):
         s = {"type": "array", "items": _ref(me)}       # self reference through an array (top level only in mainstream:
         #                                                through a promoted inline object it is a module cycle, F2)
     elif k < 0.95 and o.unions and len(targets) >= 2:
@@ -272,7 +274,7 @@ def gen_responses(r: random.Random, o: Opts, schemas: dict) -> dict:
         resp[r.choice(["200", "201"])] = {"description": "binary", "content": {"application/octet-stream": {"schema": {"type": "string", "format": "binary"}}}}
     elif o.streaming and k0 < 0.2:
         stream_op = True
-        resp["200"] = {"description": "stream", "content": {r.choice(["text/event-stream", "application/x-ndjson"]): {"schema": gen_body_schema(r, o, schemas)}}}
+        resp["200"] = {"description": "stream", "content": {r.choice(["text/event-stream", "application/x-ndjson"] if o.ndjson else ["text/event-stream"]): {"schema": gen_body_schema(r, o, schemas)}}}
     if not stream_op or not o.mainstream:
         n2 = r.choice([1, 1, 1, 2])
         codes2 = r.sample(["200", "201", "202", "204"], n2) if r.random() < 0.9 else ["206"]
